@@ -15,6 +15,7 @@ EXPLANATION = (
     'only flow into wrap-safe operations (counter typestate); (R6) IORING_SETUP_NO_SQARRAY is set '
     "unconditionally; (R7) QueueFull leads to wait_for_submission + Pending. It does not decide the kernel's "
     'side of the protocol nor hardware ordering beyond presence/order of fence and Release store.'
+    ' Also decided: (R9 = C11.R6) in kernel-thread mode IORING_ENTER_SQ_WAKEUP is passed on the edge where IORING_SQ_NEED_WAKEUP is set; (R10) a reused slot is reset (whole entry) on every path before the fill closure runs; (R11 = C18.R4) Shared.kernel_thread / single_issuer are true exactly when the echoed setup flag is set.'
 )
 NOT_DECIDED = "kernel side of the SQ protocol; all-interleavings behaviour (only lock-region and guard structure are decided)"
 ASSUMPTIONS = ["std::sync::Mutex provides mutual exclusion", "kernel consumes entries in [head, tail) only"]
